@@ -17,6 +17,9 @@ pub struct Scenario {
     pub p: u32,
     pub f: u32,
     pub run: RunFn,
+    /// Runs once, single-threaded, before the scenario is explored (e.g. to
+    /// set process-wide state such as environment variables).
+    pub setup: Option<Box<dyn Fn() + Sync + Send>>,
 }
 
 impl Scenario {
@@ -27,6 +30,7 @@ impl Scenario {
             p,
             f,
             run: Box::new(run),
+            setup: None,
         }
     }
 }
@@ -196,6 +200,9 @@ pub fn run_check(args: &Args, spec: CheckSpec) -> ! {
         let share = remaining / (n - i) as f64;
         let mut cfg = Config::new(&sc.name, sc.p, sc.f);
         cfg.deadline = Some(Instant::now() + Duration::from_secs_f64(share.max(0.5)));
+        if let Some(s) = &sc.setup {
+            s();
+        }
         let st = explorer::explore(&cfg, &sc.run);
         if std::env::var_os("DPMC_PROGRESS").is_some() {
             eprintln!(
@@ -383,6 +390,9 @@ fn replay_file(path: &str, spec: &CheckSpec) -> ! {
         eprintln!("scenario {} not found in {}", scn, spec.property);
         std::process::exit(2);
     };
+    if let Some(s) = &sc.setup {
+        s();
+    }
     let (outcome, trace, taken, diverged) = explorer::replay(&choices, &sc.run);
     println!("replay of {} scenario {} choices {:?}", spec.property, scn, choices);
     for t in &trace {
